@@ -359,4 +359,38 @@ theorem C15_body_key_ignore_counterexample :
 /-- the tie: the `errors` mode observed on the real `digest` in this run is the injective one -/
 theorem C15_body_key_tie : ChamVerif.Gen.digestBodyErrors = "surrogatepass" := by decide
 
+/-! ## the template class in the key -/
+
+/-- **C15 (class name and source are keyed unambiguously)**: a class name contains no NUL, so the bytes `class NUL source`
+determine both parts -/
+theorem C15_key_bytes_injective (c1 c2 b1 b2 : List Nat) (h1 : 0 ∉ c1) (h2 : 0 ∉ c2)
+    (h : keyBytes c1 b1 = keyBytes c2 b2) : c1 = c2 ∧ b1 = b2 := by
+  unfold keyBytes at h
+  induction c1 generalizing c2 with
+  | nil =>
+    cases c2 with
+    | nil => simpa using h
+    | cons y ys =>
+      simp only [List.nil_append, List.cons_append, List.cons.injEq] at h
+      exact absurd h.1.symm (by intro hy; exact h2 (by simp [hy]))
+  | cons x xs ih =>
+    cases c2 with
+    | nil =>
+      simp only [List.nil_append, List.cons_append, List.cons.injEq] at h
+      exact absurd h.1 (by intro hx; exact h1 (by simp [hx]))
+    | cons y ys =>
+      simp only [List.cons_append, List.cons.injEq] at h
+      obtain ⟨hxy, hrest⟩ := h
+      obtain ⟨hc, hb⟩ := ih ys (fun hm => h1 (by simp [hm])) (fun hm => h2 (by simp [hm])) hrest
+      exact ⟨by rw [hxy, hc], hb⟩
+
+/-- with the source directly followed by the class name (the code before the fix: finding D-15d) two different pairs share
+their bytes: `"Hello " ++ "PageTemplate" = "Hello Page" ++ "Template"` -/
+theorem C15_key_bytes_old_counterexample :
+    let b (s : String) : List Nat := s.toList.map Char.toNat
+    keyBytesOld (b "PageTemplate") (b "Hello ") = keyBytesOld (b "Template") (b "Hello Page") ∧ b "PageTemplate" ≠ b "Template" := by decide
+
+/-- the tie: the layout observed on the real `digest` in this run is the unambiguous one -/
+theorem C15_key_layout_tie : ChamVerif.Gen.digestLayout = "class-nul-body" := by decide
+
 end ChamVerif.Sys.Cache
